@@ -11,8 +11,8 @@ Confirms a seeded change produced by a seeding sub-agent and runs our checks aga
 import json, os, re, shutil, subprocess, sys, tempfile
 prop, n = sys.argv[1], sys.argv[2]
 checks = sys.argv[3:] or [prop]
-src = f"/tmp/seed-out/{prop}/{n}"
-wt = f"/tmp/seed-{prop}"
+src = os.environ.get("SEED_SRC", "/tmp/seed-out") + f"/{prop}/{n}"
+wt = os.environ.get("SEED_WT", "/tmp/seed-") + prop
 env = dict(os.environ, GOFLAGS="-mod=mod", GOPROXY="off")
 def sh(cmd, cwd=None, timeout=1800):
     r = subprocess.run(cmd, shell=True, cwd=cwd, env=env, capture_output=True, text=True, timeout=timeout)
